@@ -186,8 +186,10 @@ theorem inv_age {s s' : State} (h : Inv s) (t : Tid) (hs : step false s (.age t)
   simp only [step] at hs
   split at hs
   · rename_i e r hpc
-    simp only [Option.some.injEq] at hs; subst hs
-    exact inv_pc_only h t _ (by simp [hpc]) (by simp [hpc]) (by simp [hpc]) (by simp) (by simp)
+    split at hs
+    · simp only [Option.some.injEq] at hs; subst hs
+      exact inv_pc_only h t _ (by simp [hpc]) (by simp [hpc]) (by simp [hpc]) (by simp) (by simp)
+    · simp at hs
   · simp at hs
 
 theorem inv_resume {s s' : State} (h : Inv s) (t : Tid) (hs : step false s (.resume t) = some s') : Inv s' := by
